@@ -60,6 +60,12 @@ pub struct EncSpec {
     /// chromosome-tree nodes in level order (root first, as the UCSC writer does) or depth first
     #[serde(default)]
     pub chrom_level_order: bool,
+    /// ids follow the reverse of the byte order of the names and the single leaf of the chromosome
+    /// tree lists the keys in id order, i.e. NOT sorted (what bigtools itself writes when its input
+    /// names chromosomes in another order than byte order and that is allowed; readers that scan
+    /// the leaf find every key).  Only with a single-leaf tree.
+    #[serde(default)]
+    pub chrom_ids_in_given_order: bool,
     pub fanout: usize,
     pub placement: Placement,
     /// zoom reductions to write
@@ -428,6 +434,9 @@ pub fn encode(spec: &EncSpec) -> Encoded {
     let mut w = W { b: vec![], le };
     let mut order: Vec<usize> = (0..spec.chroms.len()).collect();
     order.sort_by(|a, b| spec.chroms[*a].name.as_bytes().cmp(spec.chroms[*b].name.as_bytes()));
+    if spec.chrom_ids_in_given_order && spec.chrom_block >= spec.chroms.len() {
+        order.reverse();
+    }
     let chroms: Vec<(String, u32, u32)> = order.iter().enumerate().map(|(id, i)| (spec.chroms[*i].name.clone(), id as u32, spec.chroms[*i].size)).collect();
     let magic = if spec.bed { super::indep::BIGBED_MAGIC } else { super::indep::BIGWIG_MAGIC };
     // header placeholder
